@@ -140,6 +140,36 @@ def too_large(fn: gen.Fn, args: list) -> bool:
     return False
 
 
+PYOP = {"+": lambda a, b: a + b, "-": lambda a, b: a - b, "*": lambda a, b: a * b, "//": lambda a, b: a // b,
+        "%": lambda a, b: a % b, "&": lambda a, b: a & b, "|": lambda a, b: a | b, "^": lambda a, b: a ^ b,
+        "<<": lambda a, b: a << b, ">>": lambda a, b: a >> b}
+
+
+def norm_cases(ctx: Ctx, fn: gen.Fn, B: list[int]) -> list[tuple[gen.Fn, list, str]]:
+    """(operands…, expected result): the compiled code compares its own result with the expected value."""
+    rng = ctx.rng
+    out = []
+    n = ctx.pick(700, 6000)
+    if fn.op in PYOP:
+        pairs = [(rng.choice(B), rng.choice(B)) for _ in range(n)] + [(rand_int(rng), rand_int(rng)) for _ in range(n // 2)]
+        for a, b in pairs:
+            if fn.op == "<<" and b > 300:
+                continue
+            try:
+                c = PYOP[fn.op](a, b)
+            except (ZeroDivisionError, ValueError, OverflowError):
+                continue
+            out.append((fn, [a, b, c], "boundary"))
+    else:
+        vals = values_for(fn.params[0], B, []) + [rand_for(fn.params[0], rng) for _ in range(ctx.pick(100, 2000))]
+        for a in vals:
+            if fn.op == "conv" and not in_range(a, fn.ftype):
+                continue
+            c = {"neg": -a, "inv": ~a, "back": a, "conv": a}[fn.op]
+            out.append((fn, [a, c], "boundary"))
+    return out
+
+
 def make_cases(ctx: Ctx, fns: list[gen.Fn]) -> list[tuple[gen.Fn, list, str]]:
     rng = ctx.rng
     B, F = boundary_ints(), boundary_floats()
@@ -151,6 +181,9 @@ def make_cases(ctx: Ctx, fns: list[gen.Fn]) -> list[tuple[gen.Fn, list, str]]:
              "bool": 0}
     cases: list[tuple[gen.Fn, list, str]] = []
     for fn in fns:
+        if fn.group == "norm":
+            cases.extend(norm_cases(ctx, fn, B))
+            continue
         vs = [values_for(t, B, F) for t in fn.params]
         total = 1
         for v in vs:
@@ -261,6 +294,8 @@ def judge(fn: gen.Fn, args: list, ri: str, rc: str) -> tuple[str, str]:
         crashed = False
     ki, ti, vi = ri.split(" ", 2)
     kc = rc.split(" ", 2)[0]
+    if g == "norm":
+        return ("same", "") if ri == rc else ("DIFF", "result-not-normalised-or-wrong")
     if g in ("int", "bool", "const"):
         if fn.op == "**" and isinstance(args[1], int) and args[1] < 0:
             return "excluded", "negative-exponent (result is a float; the annotated return type rejects it)"
@@ -378,6 +413,15 @@ def model_line(fn: gen.Fn, args: list, tables: dict) -> tuple[str, str] | None:
     g, t = fn.group, fn.ftype
     if g == "int" and all(p == "int" for p in fn.params) and not fn.stmts and fn.op in CMP:
         return "M cmp %s %d %d" % (fn.op, tag_word(args[0], 0), tag_word(args[1], 1)), "M:cmp"
+    if g == "int" and fn.op == "/" and fn.params == ["int", "int"] and args[1] != 0 and max(abs(args[0]), abs(args[1])) < 2 ** 900:
+        return "M tdiv %d %d %d %d" % (args[0] < 0, abs(args[0]), args[1] < 0, abs(args[1])), "M:tdiv"
+    if g == "int" and fn.op == "float" and abs(args[0]) < 2 ** 900:
+        return "M i2f %d %d" % (args[0] < 0, abs(args[0])), "M:i2f"
+    if g == "mixedfloat" and fn.op in CMP | {"+", "-", "*"}:
+        a = args[0] if fn.params[0] == "int" else args[1]
+        if abs(a) < 2 ** 900:
+            return "M i2f %d %d" % (a < 0, abs(a)), "M:i2fop"
+        return None
     if g == "int" and len(fn.params) >= 1 and all(p == "int" for p in fn.params):
         if len(fn.params) == 2:
             c = tables["binary"].get(fn.op + ("=" if fn.stmts else ""))
@@ -436,6 +480,32 @@ def check_model(fn: gen.Fn, args: list, kind: str, out: str) -> tuple[str | None
     if parts[0].startswith("bad") or parts[0] == "unknown-function":
         return "driver: " + body, None
     t = fn.ftype
+    if kind == "M:tdiv":
+        import math
+
+        def val(neg: str, m: str, e: str) -> float:
+            v = math.ldexp(int(m), int(e) - 1200)
+            return -v if neg == "1" else v
+        c, pv = val(*parts[2:5]), val(*parts[6:9])
+        exact = args[0] / args[1]
+        prob = None if pv.hex() == exact.hex() else "model of CPython's true division gives %s, CPython %s" % (pv.hex(), exact.hex())
+        short = all(TAG_MIN <= a <= TAG_MAX for a in args)
+        return prob, "ok float %s" % (c.hex() if short else pv.hex())
+    if kind in ("M:i2f", "M:i2fop"):
+        d = float(int(parts[2])) * (-1.0 if parts[1] == "1" else 1.0)      # exact: the model's value is a binary64 value
+        if int(d) != int(parts[2]) * (-1 if parts[1] == "1" else 1):
+            return "model of (double)int returns %s, not a binary64 value" % parts[2], None
+        if kind == "M:i2f":
+            exact = float(args[0])
+            return (None if exact.hex() == d.hex() else "model converts %d to %r, CPython to %r" % (args[0], d, exact)), "ok float %s" % d.hex()
+        xs = [d if pt == "int" else a for a, pt in zip(args, fn.params)]
+        try:
+            r = PYOPF[fn.op](*xs)
+        except (OverflowError, ZeroDivisionError) as e:
+            return None, "exc %s -" % type(e).__name__
+        if isinstance(r, bool):
+            return None, "ok bool %s" % r
+        return None, "ok float %s" % ("nan" if r != r else r.hex())
     if kind == "M:cmp":
         if parts[0] == "slow":
             return None, None
@@ -511,8 +581,79 @@ def check_model(fn: gen.Fn, args: list, kind: str, out: str) -> tuple[str | None
     return None, pred
 
 
+PYOPF = {"<": lambda a, b: a < b, "<=": lambda a, b: a <= b, ">": lambda a, b: a > b, ">=": lambda a, b: a >= b,
+         "==": lambda a, b: a == b, "!=": lambda a, b: a != b, "+": lambda a, b: a + b, "-": lambda a, b: a - b,
+         "*": lambda a, b: a * b}
 PY_SPEC_CMP = {"<": lambda a, b: a < b, "<=": lambda a, b: a <= b, ">": lambda a, b: a > b,
                ">=": lambda a, b: a >= b, "==": lambda a, b: a == b, "!=": lambda a, b: a != b}
+
+
+def s64(w: int) -> int:
+    return signed(w % M64, 64)
+
+
+HELPER_SPEC = {      # translated helper functions that no harness operation reaches on its own: word(s) -> expected `val`
+    "CPyTagged_TooBig": lambda v: int(not (TAG_MIN <= s64(v) <= TAG_MAX)),
+    "CPyTagged_TooBigInt64": lambda v: int(not (TAG_MIN <= s64(v) <= TAG_MAX)),
+    "CPyTagged_CheckLong": lambda v: v & 1,
+    "CPyTagged_CheckShort": lambda v: 1 - (v & 1),
+    "CPyTagged_ShortAsSsize_t": lambda v: (s64(v) >> 1) % M64,
+    "CPyTagged_IsNegative": lambda v: int(s64(v) < 0),
+    "CPyTagged_ShortFromSsize_t": lambda v: (2 * v) % M64,
+    "CPyTagged_IsAddOverflow": lambda l, r: int(not (-2 ** 63 <= s64(l) + s64(r) < 2 ** 63)),
+    "CPyTagged_IsSubtractOverflow": lambda l, r: int(not (-2 ** 63 <= s64(l) - s64(r) < 2 ** 63)),
+}
+
+
+def helper_search(ctx: Ctx, inv: dict) -> list[str]:
+    """Evaluate the translated helper functions on boundary words in the model; report contradictions with
+    their specification (model counterexamples for the replay of a broken obligation)."""
+    words = sorted({(2 * v) % M64 for v in boundary_ints() if TAG_MIN <= v <= TAG_MAX} |
+                   {v % M64 for v in boundary_ints() if -2 ** 63 <= v < 2 ** 63} | {1, 3, M64 - 1})
+    have = {f["name"] for f in inv["functions"]}
+    lines, meta = [], []
+    for name, spec in HELPER_SPEC.items():
+        if name not in have:
+            continue
+        if name.startswith("CPyTagged_Is") and name.endswith("Overflow"):
+            for l in words[::3]:
+                for r in words[::3]:
+                    res = (l + r) % M64 if "Add" in name else (l - r) % M64
+                    lines.append(f"F {name} {res} {l} {r}")
+                    meta.append((name, (l, r), spec(l, r)))
+        else:
+            for v in words:
+                lines.append(f"F {name} {v}")
+                meta.append((name, (v,), spec(v)))
+    outs = ctx.lean_driver("Driver/C15.lean", lines)
+    bad = []
+    for (name, args, want), o in zip(meta, outs):
+        ctx.dist("model_helper_checks", name)
+        if o != f"val {want} ub=0":
+            bad.append(f"{name}{tuple(s64(a) for a in args)} = `{o}` in the model, specification says {want}")
+    return bad
+
+
+def failing_theorems(log: str) -> list[str]:
+    """Names of the theorems whose proofs failed, from lake's `error: <file>:<line>:<col>` lines."""
+    import re
+    out: list[str] = []
+    for m in re.finditer(r"error: ([\w/.]+\.lean):(\d+):\d+", log):
+        path, line = os.path.join(LEAN, m.group(1)), int(m.group(2))
+        name = "?"
+        try:
+            src = open(path).read().split("\n")
+            for ln in range(min(line, len(src)) - 1, -1, -1):
+                mm = re.match(r"\s*(?:private\s+)?(?:theorem|def|example)\s*([\w.']*)", src[ln])
+                if mm:
+                    name = mm.group(1) or "example"
+                    break
+        except OSError:
+            pass
+        item = f"{name} ({m.group(1)}:{line})"
+        if item not in out:
+            out.append(item)
+    return out
 
 
 # --------------------------------------------------------------------------------------------- main
@@ -546,6 +687,8 @@ def main(ctx: Ctx) -> None:
     proved = False
     if translated:
         proved = ctx.prove("MypyVerif.Props.C15", MODEL_FILES)
+        if not proved:
+            ctx.broken_ties.append("proof obligations that no longer check: " + ", ".join(failing_theorems(getattr(ctx, "build_log", ""))[:20]))
         ctx.coverage["translated_c_functions"] = [f["name"] for f in inv["functions"]]
         ctx.coverage["not_translated"] = inv["skipped"]
     ctx.trusted(
@@ -586,17 +729,24 @@ def main(ctx: Ctx) -> None:
                 raise
             model_ok = False
             ctx.broken_ties.append("Lean driver cannot evaluate the regenerated definitions: " + str(e)[:500])
+    helper_bad: list[str] = []
+    if inv and model_ok:
+        try:
+            helper_bad = helper_search(ctx, inv)
+        except ToolFailure:
+            if proved:
+                raise
+    if helper_bad:
+        ctx.broken_ties.append("model counterexamples (translated helper vs its specification): " + "; ".join(helper_bad[:6]))
     dirs = {opt: f.result() for opt, f in builds.items()}
     with ThreadPoolExecutor(max_workers=2) as ex2:
         futs = {opt: ex2.submit(run_worker, ctx, dirs[opt], jobs, "O" + opt) for opt in dirs}
         results = {opt: f.result() for opt, f in futs.items()}
 
     # 3. compare
-    reported: dict[str, int] = {}
-    nshape: dict[str, int] = {}
-    ndiff = 0
+    diffs: list[dict] = []          # concrete compiled-vs-CPython differences inside the domain
+    model_only: list[dict] = []     # the model contradicts Python / the compiled code, the compiled code is right
     model_problems = 0
-    model_mismatch = 0
     for i, name, args in jobs:
         fn = cases[i][0]
         stream = cases[i][2]
@@ -608,6 +758,7 @@ def main(ctx: Ctx) -> None:
                 mo, mprob, mpred = cand, p1, p2
         if mprob:
             model_problems += 1
+        anydiff = False
         for opt, res in results.items():
             ri, rc = res.get(i, ("missing - -", "missing - -"))
             if ri.startswith("skipped"):
@@ -625,32 +776,53 @@ def main(ctx: Ctx) -> None:
                 if fn.group == "int" and len(ints) == 2:
                     ctx.dist("tagged_operand_repr", "/".join("short" if TAG_MIN <= a <= TAG_MAX else "long" for a in ints))
             if verdict == "DIFF":
-                ndiff += 1
-                obs = known_class(fn, args, ri, rc)
-                key = obs["class"] + ("/" + obs["effect"] if "effect" in obs else "") + ":" + fn.name
-                reported[key] = reported.get(key, 0) + 1
-                shape = json.dumps({k: v for k, v in obs.items() if k != "function"}, sort_keys=True)
-                if reported[key] == 1:
-                    nshape[shape] = nshape.get(shape, 0) + 1
-                if reported[key] == 1 and nshape[shape] <= 3:
-                    ctx.report(obs, f"{fn.name}{show_args(args)} (`{fn.expr}`, opt level {opt}): compiled gives "
-                               f"`{rc}`, CPython gives `{ri}` [{why}]" + (f"; Lean model: {mprob}" if mprob else ""),
-                               {"function": fn.name, "expr": fn.expr, "args": [enc_arg(a) for a in args], "opt": opt,
-                                "compiled": rc, "cpython": ri, "model": mo, "why": why})
+                anydiff = True
+                diffs.append({"fn": fn, "args": args, "opt": opt, "ri": ri, "rc": rc, "why": why, "mo": mo, "mprob": mprob,
+                              "mpred": mpred, "obs": known_class(fn, args, ri, rc)})
             elif mpred is not None and verdict == "same" and not mprob and \
                     not (mpred == rc or (mpred == "exc * -" and rc.startswith("exc "))):
-                model_mismatch += 1
-                if model_mismatch <= 3:
-                    ctx.violation(f"correspondence broken: Lean model of {mo[0]} predicts `{mpred}` for {fn.name}{show_args(args)}, "
-                                  f"the compiled code (= CPython) gives `{rc}`",
-                                  {"broken": "Gen/CFast.lean vs compiled harness", "function": fn.name, "args": [enc_arg(a) for a in args],
-                                   "opt": opt, "model": mo, "compiled": rc}, found_input=False)
-        if mprob and all(judge(fn, args, *results[o].get(i, ("missing - -", "missing - -")))[0] != "DIFF" for o in results):
-            # the model contradicts Python, the compiled code does not: translator semantics or proof scope is off
-            if model_problems <= 3:
-                ctx.violation(f"Lean model of {mo[0]} on {fn.name}{show_args(args)}: {mprob}; not reproduced by the compiled code",
-                              {"broken": "Gen/CFast.lean (translator semantics) vs compiled harness", "function": fn.name,
-                               "args": [enc_arg(a) for a in args], "model": mo}, found_input=False)
+                model_only.append({"fn": fn, "args": args, "opt": opt, "mo": mo, "rc": rc,
+                                   "what": f"predicts `{mpred}`, the compiled code (= CPython) gives `{rc}`"})
+        if mprob and not anydiff:
+            model_only.append({"fn": fn, "args": args, "opt": "-", "mo": mo, "rc": None,
+                               "what": f"{mprob}; not reproduced by the compiled code"})
+
+    def size(d: dict) -> tuple:
+        from fractions import Fraction
+        mags = [abs(int(a)) if isinstance(a, int) else (abs(Fraction(a)) if a == a and abs(a) != float("inf") else 10 ** 400)
+                for a in d["args"]]
+        return (max(mags) if mags else 0, sum(mags), d["opt"])
+
+    reported: dict[str, int] = {}
+    groups: dict[tuple[str, str], list[dict]] = {}
+    for d in diffs:
+        shape = json.dumps({k: v for k, v in d["obs"].items() if k != "function"}, sort_keys=True)
+        groups.setdefault((shape, d["fn"].name), []).append(d)
+        key = d["obs"]["class"] + ("/" + d["obs"]["effect"] if "effect" in d["obs"] else "") + ":" + d["fn"].name
+        reported[key] = reported.get(key, 0) + 1
+    nshape: dict[str, int] = {}
+    nreports = 0
+    for (shape, fname), ds in sorted(groups.items(), key=lambda kv: size(min(kv[1], key=size))):
+        nshape[shape] = nshape.get(shape, 0) + 1
+        if nshape[shape] > 3 or nreports >= 8:
+            continue
+        nreports += 1
+        d = min(ds, key=size)        # the smallest operands on which this function fails
+        fn, args = d["fn"], d["args"]
+        ctx.report(d["obs"], f"{fn.name}{show_args(args)} (`{fn.expr}`, opt level {d['opt']}): compiled gives "
+                   f"`{d['rc']}`, CPython gives `{d['ri']}` [{d['why']}]; {len(ds)} failing case(s) of this function"
+                   + (f"; Lean model: {d['mprob']}" if d["mprob"] else "")
+                   + ("; the Lean model predicts the compiled value" if d["mpred"] == d["rc"] else ""),
+                   {"function": fn.name, "expr": fn.expr, "args": [enc_arg(a) for a in args], "opt": d["opt"],
+                    "compiled": d["rc"], "cpython": d["ri"], "model": d["mo"], "why": d["why"],
+                    "failing_cases_of_this_function": len(ds)})
+    for m in sorted(model_only, key=size)[:3]:
+        fn, args = m["fn"], m["args"]
+        ctx.violation(f"correspondence broken: Lean model ({m['mo'][0]}) on {fn.name}{show_args(args)}: {m['what']}",
+                      {"broken": "Lean model (Gen/CFast.lean or Model/FixedWidth.lean) vs compiled harness", "function": fn.name,
+                       "args": [enc_arg(a) for a in args], "opt": m["opt"], "model": m["mo"], "compiled": m["rc"]},
+                      found_input=False)
+    ndiff = len(diffs)
     ctx.count("traces_validated_against_impl", len(lines) * len(results))
     ctx.count("disagreements_checked", ndiff + model_problems)
     ctx.coverage["cases_compiled_vs_cpython"] = len(jobs) * len(results)
@@ -662,7 +834,7 @@ def main(ctx: Ctx) -> None:
                 "result": results["3"].get(jobs[len(jobs) // 3][0])})
     if lines:
         ctx.sample({"model_line": lines[len(lines) // 2], "model_out": model_out.get(model_idx[len(lines) // 2][0])})
-    if (not proved or not model_ok) and not ctx.violations:
+    if (not proved or not model_ok or helper_bad) and not ctx.violations:
         ctx.violation("the Lean development for C15 no longer checks against the current sources and no operand pair was "
                       "found on which compiled code and CPython differ",
                       {"broken": ctx.broken_ties, "searched_cases": len(jobs) * len(results)}, found_input=False)
